@@ -37,6 +37,41 @@ CHECKS = {
          "d_matrix_product and d2_fog on every size configuration up to the bound x static/dynamic x dense/sparse on integer data compared exactly, "
          "with compile probes for the dynamic-size configurations.",
     design="4/C05", technique="explicit-state enumeration of finite input / configuration spaces against a reference model"),
+ "C10": dict(
+    text="Bounded exhaustive enumeration of the full product of J families (8 structured families incl. rank-deficient, graded, nearly "
+         "dependent; shapes {1..6}^2 quick, {1..8,16,40}^2 thorough) x 5 d x 5 lambda/Delta x 7 r, each through dense-dynamic, dense-static, "
+         "sparse column- and row-major storage; oracle in long double: normal-equation backward error, dense = sparse when cond <= 1e8, "
+         "analytic d|D dx|/dlambda cross-checked by complex step, lambda = 1/Delta, descent, colwise_norm = definition.",
+    design="4/C10", technique="explicit-state enumeration of a finite input product space against a long-double reference"),
+ "C17": dict(
+    text="Bounded exhaustive enumeration of full products over element / tangent / planar-angle alphabets (incl. signed-zero coefficient "
+         "pairs): SE_K_3<1> = SE3 and SE_K_3<2> = zero-time Galilei operation by operation (all ordered pairs for composition), lift/project "
+         "homomorphism and injectivity on all pairs, C1 factorisation, rot_x/y/z = exp, quaternion / isometry / complex / Euler round trips, "
+         "SO2 angle ranges and congruence; reference matrices from the documented forms in long double.",
+    design="4/C17", technique="explicit-state enumeration of finite input product spaces against a reference model"),
+ "C18": dict(
+    text="Stateless model checking of the real code: harness bodies (group/tangent functions, manifold models incl. SubManifold and "
+         "AnyManifold, Spline/BSpline evaluation, sparse derivatives, independent diff/minimize/fit calls) are compiled with TSan code "
+         "generation and linked against our own runtime, so every memory access is a hook; 2-3 controlled threads under a serialising "
+         "scheduler; DFS over all schedules within a preemption bound (2 quick / 3 thorough) with scheduling points at every access to a "
+         "conflict-candidate granule and at every static-initialisation guard operation, warm and first-use variants, one forked child per "
+         "execution; oracles: results bitwise equal to the sequential run, no conflict pair unordered by happens-before, no deadlock. When no "
+         "thread writes memory another thread touches the result holds for every interleaving. A separate free-running real-TSan pass "
+         "(8 threads) keeps accesses in uninstrumented library code visible.",
+    design="5", technique="preemption-bounded schedule enumeration (CHESS-style DFS) over hooked memory accesses", engine="mc-sched"),
+ "C19": dict(
+    text="Bounded exhaustive enumeration: 8 group types x every alphabet tangent x block offsets {0,1,Dof,7} x host sizes x host "
+         "prefill patterns x 5 sparse routines; the designated block equals the dense routine exactly, every other stored entry is bitwise "
+         "untouched, index arrays / nonZeros / compression unchanged (built with AddressSanitizer); published patterns contain every "
+         "entry that is non-zero at generic tangents of a long-double reference.",
+    design="4/C19", technique="explicit-state enumeration of a finite input product space, differential oracle sparse = dense"),
+ "C20": dict(
+    text="Bounded exhaustive enumeration: every basis for K = 0..10 on evaluation grids against definitions/recurrences in long double, "
+         "lagrange_basis Kronecker property, monomial_derivative(s)/integral, lgr_nodes K = 1..16 exactness on all monomials up to degree "
+         "2K-2, integrate_absolute_polynomial on coefficient/interval product spaces incl. degenerate, threshold and large-interval strata, "
+         "binary_interval_search on EVERY sorted range of length <= 8 over {0..4} x every query for int/double/float/custom comparator "
+         "plus long ranges, against a linear-scan specification.",
+    design="4/C20", technique="explicit-state enumeration of finite input spaces against definitional reference models"),
 }
 
 PENDING_REASON = "check not built yet in this session (planned in DESIGN.md section 4); will be claimed once its harness runs clean"
@@ -73,8 +108,10 @@ def main():
             "add_only": True,
         },
         "engines": [
-            {"name": "mc-explore", "path": "mc/mc.cpp", "serves_properties": sorted(CHECKS),
+            {"name": "mc-explore", "path": "mc/mc.cpp", "serves_properties": sorted(k for k in CHECKS if CHECKS[k].get("engine", "mc-explore") == "mc-explore"),
              "kind_free_text": "exhaustive index-space / BFS explorer over the real implementation with long-double reference models"},
+            {"name": "mc-sched", "path": "checks/C18/engine.cpp", "serves_properties": sorted(k for k in CHECKS if CHECKS[k].get("engine") == "mc-sched"),
+             "kind_free_text": "preemption-bounded schedule explorer: own __tsan_* runtime shim, per-thread arenas, guard interposition, fork per execution"},
         ],
         "checks": checks,
         "notes": "See DESIGN.md. known_findings.jsonl lists genuine defects that are recorded rather than repaired, and the fix: commits.",
